@@ -265,22 +265,24 @@ theorem lock_discipline_current : NetParse.Locks.complaints Gen.NetFacts.lockTra
     the net.Conn.Read contract). -/
 theorem explicit_panics_under_lock :
     NetParse.Locks.complaintsRaw Gen.NetFacts.lockTraces =
-      ["OneConnection.ProcessCmpctBlock: panic with txpool.TxMutex held",
-       "OneConnection.FetchMessage: panic with c.Mutex held"] ∧
+      ["OneConnection.FetchMessage: panic with c.Mutex held",
+       "OneConnection.ProcessCmpctBlock: panic with txpool.TxMutex held"] ∧
     NetParse.Locks.panicUnreachable =
       [("OneConnection.ProcessCmpctBlock", "txpool.TxMutex", "GocoinV.Props.C18.cmpctblock_panic_unreachable"),
        ("OneConnection.FetchMessage", "c.Mutex", "GocoinV.Props.C18.fetch_hdrlen_panic_unreachable")] := by
   decide +kernel
 
 /-- the shared accesses the traces are known to contain (so that a renamed field cannot silently
-    empty the list the previous theorem speaks about) -/
+    empty the list the previous theorem speaks about). Locals appear under their canonical number
+    (`$1` = the connection NetRouteInvExt walks over); the unexported worker of the getdata handler is not
+    named: the access is in ProcessGetData itself or in a function it calls directly (`accessVia`, `callGraph`). -/
 theorem shared_accesses_tracked :
-    ("OneConnection.processGetData", "c.InvStore(…)", "c.Mutex") ∈ Gen.NetFacts.sharedAccesses ∧
+    NetParse.Locks.accessVia "OneConnection.ProcessGetData" "c.InvStore(…)" "c.Mutex" = true ∧
     ("OneConnection.ProcessInv", "c.InvStore(…)", "c.Mutex") ∈ Gen.NetFacts.sharedAccesses ∧
     ("OneConnection.SendInvs", "c.InvStore(…)", "c.Mutex") ∈ Gen.NetFacts.sharedAccesses ∧
     ("OneConnection.ProcessNewHeader", "c.InvStore(…)", "c.Mutex") ∈ Gen.NetFacts.sharedAccesses ∧
-    ("NetRouteInvExt", "v.InvDone.Map", "v.Mutex") ∈ Gen.NetFacts.sharedAccesses ∧
-    ("NetRouteInvExt", "v.PendingInvs", "v.Mutex") ∈ Gen.NetFacts.sharedAccesses ∧
+    ("NetRouteInvExt", "$1.InvDone.Map", "$1.Mutex") ∈ Gen.NetFacts.sharedAccesses ∧
+    ("NetRouteInvExt", "$1.PendingInvs", "$1.Mutex") ∈ Gen.NetFacts.sharedAccesses ∧
     ("OneConnection.ParseAddr", "peersdb.PeerDB.Put", "peersdb") ∈ Gen.NetFacts.sharedAccesses ∧
     64 ≤ Gen.NetFacts.lockTraces.length := by decide +kernel
 
@@ -291,7 +293,7 @@ theorem call_locks_tracked :
     ("OneConnection.SendRawMsg", "OneConnection.DoS", "c.Mutex") ∈ Gen.NetFacts.callLocks ∧
     ("OneConnection.Run", "OneConnection.SendRawMsg", "c.Mutex") ∈ Gen.NetFacts.callLocks ∧
     ("OneConnection.ProcessBlockTxn", "OneConnection.Misbehave", "c.Mutex") ∈ Gen.NetFacts.callLocks ∧
-    ("DoNetwork", "OneConnection.MutexSetBool", "conn.Mutex") ∈ Gen.NetFacts.callLocks ∧
+    ("DoNetwork", "OneConnection.MutexSetBool", "$1.Mutex") ∈ Gen.NetFacts.callLocks ∧
     150 ≤ Gen.NetFacts.callLocks.length := by decide +kernel
 
 /-- the scan is not vacuous: it accepts the current shapes of ParseAddr's database-full path and of
